@@ -71,6 +71,9 @@ func runC07(src sim.Source, o Opts) *Result {
 				p.Path += "/"
 			}
 		}
+		if src.Intn("optionsstar", 8) == 0 {
+			p = world.Probe{Method: "OPTIONS", Path: "*"} // server-wide OPTIONS: lists every method that has routes
+		}
 		res.Checks++
 		la, lb := world.ObsLookup(rr.w.R, p), world.ObsLookup(wb.R, p)
 		ra, rbv := world.ObsReverse(rr.w.R, p), world.ObsReverse(wb.R, p)
